@@ -426,7 +426,10 @@ def _havoc_and_assume(ex: Exec, c, fi, env, call_heap, known, raising: str | Non
         raise Unsupported("pure context calls a function with a frame")
     fresh_base = ex.alloc
     for mid, mname in mods:
-        if callable(mid):
+        if callable(mid) and type(mid).__name__ == "AllObjects":
+            ok = any(callable(m2) and type(m2).__name__ == "AllObjects" and mod_covers(n2, mname) for m2, n2 in ex.modset)
+            ex.check(z3.BoolVal(ok), "frame", f"call {fi.qualname.split(':')[1]}:{mname}")
+        elif callable(mid):
             o = z3.Int("o!fr")
             g = z3.ForAll([o], z3.Implies(mid(o), ex.frame_ok(o, mname)))
             ex.check(g, "frame", f"call {fi.qualname.split(':')[1]}:{mname}")
@@ -440,7 +443,9 @@ def _havoc_and_assume(ex: Exec, c, fi, env, call_heap, known, raising: str | Non
                 return arr
             for k, (mid, mname) in enumerate(mods):
                 if mod_covers(mname, name):
-                    if callable(mid):
+                    if callable(mid) and type(mid).__name__ == "AllObjects":
+                        arr = z3.Const(f"hv{evno}_{k}_{name.replace(':', '_')}", S.heap_sort(name))
+                    elif callable(mid):
                         o = z3.Int("o!hv")
                         frs = z3.Const(f"hv{evno}_{k}_{name.replace(':', '_')}", S.heap_sort(name))
                         arr = z3.Lambda([o], z3.If(mid(o), z3.Select(frs, o), z3.Select(arr, o)))
